@@ -63,6 +63,10 @@ TRIAGE = {
     ("src/eapol.cpp", 122): "RC4 EAPOL parser: killed by C03 only if an RC4 key frame is among the inputs (gap: none from the independent encoder)",
     ("src/pppoe.cpp", 125): "killed after the container driver started alternating between both add_tag overloads",
     ("src/rawpdu.cpp", 56): "killed after the wire builder started using the payload setters",
+    ("src/detail/address_helpers.cpp", 54): "return value of decrement() that no caller reads",
+    ("src/pdu.cpp", 193): "instrumentation (the guarded region hook), not library code",
+    ("src/pdu.cpp", 201): "instrumentation (the guarded region hook), not library code",
+    ("src/radiotap.cpp", 351): "send path",
     ("src/ethernetII.cpp", 128): "send path (sockaddr for a live interface)",
     ("src/ethernetII.cpp", 205): "send path",
 }
